@@ -76,7 +76,7 @@ def main() -> int:
     for key in items:
         x, y, z = a[key], b[key], c[key]
         statuses[x[1]] = statuses.get(x[1], 0) + 1
-        if not (x == y == z):
+        if not (x == y == z) or str(x[0]).startswith('REPLAY-MISMATCH'):
             bad += 1
             if bad <= 10:
                 print('MISMATCH', key, x, y, z)
